@@ -381,7 +381,8 @@ pub fn run(tier: &str) -> i32 {
         }
     }
     // ---- (b) compiled subset
-    let stride = if thorough { 1 } else { (items.len() / 260).max(1) };
+    // thorough: an evenly spread 12 000 of the (program, representation) pairs are compiled and executed
+    let stride = if thorough { (items.len() / 12_000).max(1) } else { (items.len() / 260).max(1) };
     let mut cases = vec![];
     let mut index: BTreeMap<String, (usize, Repr)> = BTreeMap::new();
     for (k, ((i, r), (text, _))) in items.iter().zip(res.iter()).enumerate() {
